@@ -84,6 +84,9 @@ type World struct {
 	FA   *world.FakeAuth
 	Back *world.Backend
 	Px   [2]*PX // [0] signer off, [1] signer on
+	// Shared: several cases are in flight on this world at once (burst leg): the backend's log is not reset per
+	// case, every case finds its own request by its tag
+	Shared bool
 }
 
 var (
